@@ -195,12 +195,19 @@ Definition read_at_most (pre : option kind) (ck : kind) (max : Z) (src : list Z)
   | None => run (init (limit_of gen_safeio max) src [])
   end.
 
-(* filesystem.VFS.ReadFileContent (files.go:364-401): Stat size above the maximum -> TooLarge, else ReadAtMost *)
+(* filesystem.VFS.ReadFileContent (files.go): context test, Stat, refusal of a size above the maximum with the kind
+   TooLarge — where the refusal stands and what it compares are GENERATED (gen_rfc) — else ReadAtMost(max) *)
+Definition rfc_refuses (f : rfc_facts) (apply : bool) (max size : Z) : bool :=
+  (if rfc_guard_needs_apply f then apply else true) && cmp_eval (rfc_guard f) size max
+  && match rfc_guard_nesting f with None => true | Some (c, k) => cmp_eval c size k end.
 Definition limited_read (pre : option kind) (ck : kind) (apply : bool) (max : Z) (size : Z) (src : list Z) (rs : list rd) : result :=
+  let mx := if apply && rfc_max_from_limits_when_apply gen_rfc then max else rfc_max_default gen_rfc in
+  let body := if rfc_refuses gen_rfc apply mx size
+              then mkRes 0 (if rfc_guard_returns_toolarge gen_rfc then KTooLarge else KOther) [] [] rs [] false
+              else read_at_most None ck (if rfc_reads_at_most_max gen_rfc then mx else -1) src rs in
   match pre with
-  | Some k => refused k rs []
-  | None => if apply && (max <? size) then mkRes 0 KTooLarge [] [] rs [] false
-            else read_at_most None ck (if apply then max else -1) src rs
+  | Some k => if rfc_ctx_test_before_stat gen_rfc then refused k rs [] else body
+  | None => body
   end.
 
 (* A context as the helpers see it: how it ends (cancellation or deadline) and the CAUSE attached to it
